@@ -125,6 +125,17 @@ Theorem C19_gen_write_byte : forall rup maxalloc nil d sp o l c,
 Proof. exact GenBufWP.gen_buf_write_byte. Qed.
 Print Assumptions C19_gen_write_byte.
 
+(* WriteRune(r) for every int32 r: uint32(r) < RuneSelf (so a negative rune is NOT taken for ASCII) goes through
+   WriteByte(byte(r)); any other rune gets room for UTFMax bytes and utf8.AppendRune(s.buf[:m], r) stores its
+   encoding (the replacement character for an invalid rune) without reallocating; the count is the encoding's length *)
+Theorem C19_gen_write_rune : forall rup maxalloc nil (d sp : bytes) o l r,
+  (forall c, c <= rup c) -> st_wf nil ((d, sp), o, l) = true -> -2147483648 <= r < 2147483648 ->
+  wview (bview nil (fun v : Z * err => Res [fst v] [] (snd v))
+           (Buffers.buf_write_rune (d, sp) o l (fun _ => nil) (grow_slice_oracle rup maxalloc) r))
+  = wview (cstep rup maxalloc (abs_pc nil ((d, sp), o, l)) (OWriteRune r)).
+Proof. exact GenBufWP.gen_buf_write_rune. Qed.
+Print Assumptions C19_gen_write_rune.
+
 (* ReadFrom(r): the reader is a script of answers (bytes with nil / io.EOF / another error, or a negative count);
    r.Read is handed s.buf[len:cap] and what it delivers lands in the array of s.buf.  For EVERY script: the rounds
    (grow(MinRead), the cut back, the window, the count added, when it stops), the total, the error handed on (EOF
